@@ -38,6 +38,8 @@ ITEMS = [
  ("Hash", ["contains"], "IMPHASH=ee55"), ("", ["windash"], "-kw"), ("", ["cased"], "Kw"), ("h6", ["hour", "gte"], 22),
  # the SAME field in several selections with different kinds of values (candidates for one in-list)
  ("fP", [], "c"), ("fQ", [], 7), ("fP", ["cased"], "D"), ("fxf", [], "v"),
+ # numerals as strings (type conversion): plain, signed / leading zero, beside a non-numeral, under a wildcard modifier
+ ("n1", [], "42"), ("n2", [], ["7", "-3", "08"]), ("n3", [], ["5", "x*"]), ("n4", ["contains"], "12"),
 ]
 KW = [["foo", "ba*r"], [1], ["single"], ["k1", 2]]
 out = ["----------------------------- MODULE RuleItems -----------------------------",
